@@ -442,23 +442,25 @@ impl Context {
     fn walk_into_scopes(&self, start: ScopeIndex, names: &[Located<String>]) -> Option<ScopeIndex> {
         let mut current = start;
         for scope in names {
-            if let Some(symbols) = self.scopes[current].symbols.get(&scope.node) {
+            // Each name has to move one scope further in
+            let previous = current;
+            if let Some(symbols) = self.scopes[previous].symbols.get(&scope.node) {
                 for symbol in symbols {
                     // Currently only support namespaces and enums - not struct name scopes
                     match symbol {
                         ScopeSymbol::Namespace(index) => {
-                            assert_eq!(current, start);
+                            assert_eq!(current, previous);
                             current = *index
                         }
                         ScopeSymbol::EnumScope(index) => {
-                            assert_eq!(current, start);
+                            assert_eq!(current, previous);
                             current = *index
                         }
                         _ => {}
                     }
                 }
             }
-            if current == start {
+            if current == previous {
                 return None;
             }
         }
